@@ -121,6 +121,7 @@ def build(ob, sym=True, values=None):
     def item(name, n): return [var('%s_%d' % (name, i), 8) for i in range(n)]
     o = ob['op']; inputs = {}
     stack = [item('s%d' % i, L) for i, L in enumerate(ob['lens'])]
+    for k, bs in (ob.get('cvals') or {}).items(): stack[int(k)] = list(bs)
     alt = [item('a%d' % i, 1) for i in range(ob['alt'])]
     script = []
     if ob['prefix']: script.append(0x61)
@@ -140,8 +141,8 @@ def build(ob, sym=True, values=None):
     assume = [z3.ULE(nop, 201)] if sym else []
     pre = dict(alt=alt, vf=ob['vf'], nop=nop, pc=pc, pbch=0, opcode_pos=0, codesep=0xffffffff, curr_op_seq=3,
                hist=[([[7]], [], 0, 5)] if ob['mode'] in (1, 4) else [])
-    req = sesslib.sess_request(ob['mode'], flags, ob['sv'], stack, script, 0, ob['checker'], (txv, txl, txs), pre)
-    S = R.RS(stack=stack, alt=alt, vf_size=ob['vf'][0], vf_ff=ob['vf'][1], nop=nop, flags=flags, sigversion=ob['sv'], script=script, pc=pc,
+    req = sesslib.sess_request(ob['mode'], flags, ob['sv'], stack, script, ob.get('allow', 0), ob['checker'], (txv, txl, txs), pre)
+    S = R.RS(stack=stack, alt=alt, vf_size=ob['vf'][0], vf_ff=ob['vf'][1], nop=nop, flags=flags, sigversion=ob['sv'], script=script, pc=pc, allow_disabled=bool(ob.get('allow', 0)),
              checker='tx' if ob['checker'] == 1 else 'base', tx_version=txv, tx_locktime=txl, tx_sequence=txs)
     inputs = dict(flags=flags, nop=nop, txver=txv, txlock=txl, txseq=txs, stack=stack, alt=alt, script=script)
     return req, S, inputs, assume
@@ -170,8 +171,8 @@ def ref_outcome(ctx, ob, S):
 
 def key_fn(ob):
     def k(io, ro):
-        what = 'crash:' + str(io[1]) if isinstance(io, tuple) else ('outcome' if io.get('ok') != ro.get('ok') else ('error-code' if not io.get('ok') else 'state'))
-        return 'C01:%s:m%d:%s' % (R.NAME.get(ob['op'], 'op%02x' % ob['op']), ob['mode'], what)
+        what = 'crash:' + str(io[1]) if isinstance(io, (tuple, list)) else ('outcome' if io.get('ok') != ro.get('ok') else ('error-code' if not io.get('ok') else 'state'))
+        return '%s:%s:m%d:%s' % (ob.get('pid', 'C01'), R.NAME.get(ob['op'], 'op%02x' % ob['op']), ob['mode'], what)
     return k
 
 def run(E, ob):
